@@ -34,6 +34,9 @@ F(name, key, aliases, role, type) == [name |-> name, key |-> key, aliases |-> al
 Structs ==
     [ sub    |-> << F("X", "x", <<>>, "plain", "string"), F("Y", "y", <<>>, "plain", "int") >>,
       inl    |-> << F("P", "p", <<>>, "plain", "string"), F("Q", "q", <<>>, "plain", "int") >>,
+      \* an inline VALUE struct that has a field keyed like an outer field's primary key and its own catch-all: keys the outer
+      \* struct consumed (by tag or through an alias) must never be offered to it again
+      inl2   |-> << F("IName", "name", <<>>, "plain", "string"), F("ICount", "n", <<>>, "plain", "int"), F("IRest", "", <<>>, "inline", "inline_map") >>,
       \* the structs of the pipeline object model (fields whose own UnmarshalOrdered reshapes the value are "any" here)
       cmdouter |-> << F("Commands", "commands", <<"command">>, "plain", "any"), F("Rem", "", <<>>, "inline", "struct:cmdinner") >>,
       cmdinner |-> << F("Key", "key", <<"id", "identifier">>, "plain", "any"), F("Label", "label", <<"name">>, "plain", "any"),
@@ -58,11 +61,12 @@ FieldPool ==
       f_hid   |-> F("Hidden", "hidden", <<>>, "skip", "string"),
       f_ratio |-> F("Ratio", "ratio", <<>>, "plain", "float"),
       i_map   |-> F("Rest", "", <<>>, "inline", "inline_map"),
-      i_str   |-> F("RestS", "", <<>>, "inline", "struct:inl") ]
+      i_str   |-> F("RestS", "", <<>>, "inline", "struct:inl"),
+      i_str2  |-> F("RestT", "", <<>>, "inline", "struct:inl2") ]
 
-StructTypes == {"struct:sub", "struct:inl", "struct:cmdinner"}
+StructTypes == {"struct:sub", "struct:inl", "struct:inl2", "struct:cmdinner"}
 IsStructType(t) == t \in StructTypes \cup {"ptr:sub"}
-StructOf(t) == CASE t = "struct:inl" -> Structs.inl [] t = "struct:cmdinner" -> Structs.cmdinner [] OTHER -> Structs.sub
+StructOf(t) == CASE t = "struct:inl" -> Structs.inl [] t = "struct:inl2" -> Structs.inl2 [] t = "struct:cmdinner" -> Structs.cmdinner [] OTHER -> Structs.sub
 
 (* ---------------- documents ---------------- *)
 DocKeys(doc) == {doc[i][1] : i \in 1..Len(doc)}
